@@ -11,6 +11,21 @@ LEVEL_NOTE = ("Trusted base: TLC 1.8 and the TLA+ modules in spec/ (checked with
               "the evidence file (tlc_runs); beyond them TLC random simulation of the same specification is used.")
 
 CLAIMS = {
+    "C05": ("Par.tla: seeds drawn once from the main stream, every ordered exact cover of the rows, every interleaving of "
+            "workers for sequential / thread / process backends, symbolic stream positions (Inv_C05_RowLocal/Partition/"
+            "FitOrder), CodePartition arithmetic (Inv_C05_ExactCover for n<=64, n_jobs in -66..66); every TLC schedule is "
+            "executed chunk by chunk on the real _predict_contexts and compared with the whole batch and each row alone; "
+            "real joblib runs (threading/loky/multiprocessing) recorded through the guarded hooks and validated by "
+            "TracePar.tla, results compared with n_jobs=1", "6.C05"),
+    "C15": ("Sim.tla specifies the Simulator as the script of public API calls it stands for (offline: fit, predict; "
+            "online: predict, expectations, partial_fit per batch), TLC enumerates (n, test_size, ordered, batch_size) and "
+            "checks each row is predicted once and learned only afterwards; the real Simulator.run() is compared with the "
+            "script executed on deep copies of the original bandits (lists with several neighbourhood bandits of "
+            "different metrics, is_quick on/off)", "6.C15"),
+    "C16": ("Sim.tla defines the split laws, exact per-arm statistics and the default evaluator over rationals; the public "
+            "attributes of real Simulator runs are validated by TraceSim.tla, which recomputes them exactly (partition, "
+            "last rows when ordered, train+test=total, credited rewards, counts sum to the test size, ordered analyses)",
+            "6.C16"),
     "C02": ("Lin.tla: per-arm A = lambda*I + X'X, Xty = X'y accumulated incrementally vs the ridge normal equations "
             "over the ghost history with exact rational arithmetic (Inv_C02_NormalEq/Solves/Unobserved); every edge "
             "replayed on LinGreedy/LinUCB/LinTS: A, Xty exactly, beta and expectations against exact x.beta and "
@@ -63,6 +78,10 @@ NOT_APPLICABLE = {}
 
 TECH = {p: "explicit TLA+ spec checked by TLC; recorded executions of the real library validated against it "
            "(code->spec trace validation, TLC prints the documented result set per query)" for p in ("C03", "C11", "C12")}
+TECH["C05"] = ("explicit TLA+ spec of partitioning/seeding/scheduling checked by TLC; every TLC schedule executed on the real "
+               "chunk-level entry point; recorded joblib executions validated by TracePar.tla")
+TECH["C15"] = "explicit TLA+ spec of the simulation protocol; TLC-emitted public-API scripts replayed against Simulator.run()"
+TECH["C16"] = "explicit TLA+ spec of split/statistics/evaluator over exact rationals; recorded Simulator runs validated by TLC"
 
 
 def main():
